@@ -38,6 +38,7 @@ def sany(module):
 
 
 _EMIT = re.compile(r'^<<"EMIT", (".*")>>$')
+_PRINT = re.compile(r'^<<"([A-Z]+)", ([-\d, ]+)>>$')
 _COV = re.compile(r'^<(\w+) line (\d+), col \d+ to line \d+, col \d+ of module (\w+)(?: \([\d ]+\))?>: (\d+):(\d+)')
 _STATES = re.compile(r'^(\d+) states generated, (\d+) distinct states found')
 
@@ -55,6 +56,7 @@ class TlcResult:
         self.wall = 0.0
         self.cmd = ''
         self.sim_files = []
+        self.prints = []       # other <<"TAG", ...>> tuples printed by the spec
 
 
 def tlc(module, cfg, workers=None, emit=True, simulate=None, timeout=1800, coverage=True,
@@ -128,6 +130,10 @@ def tlc(module, cfg, workers=None, emit=True, simulate=None, timeout=1800, cover
                     res.records.append(json.loads(json.loads(m.group(1))))
                 except Exception as ex:
                     raise Machinery('cannot parse emitted record: %r (%s)' % (line[:300], ex))
+                continue
+            m = _PRINT.match(line)
+            if m:
+                res.prints.append((m.group(1), [int(x) for x in re.findall(r'-?\d+', m.group(2))]))
                 continue
             other.append(line)
             m = _STATES.match(line)
